@@ -18,6 +18,12 @@ import vlib
 import c17_gt
 
 W = vlib.WORK / "c17"
+SAMPLES = []          # actual cases of this run, for the evidence file
+
+
+def sample(kind, limit, **kw):
+    if sum(1 for x in SAMPLES if x["kind"] == kind) < limit:
+        SAMPLES.append(dict(kind=kind, **kw))
 ACTION = {"fn": "set_breakpoint_at_fn", "line": "set_breakpoint_at_line", "sym": "get_symbols"}
 
 
@@ -85,6 +91,10 @@ def run_index_cases(rep, exe, name, delim, needles, cases, stats):
                 if bad <= 40:
                     rep.mismatch(classify_index(delim, ins, nd, e, g), "index_get", expected=e, actual=g,
                                  script={"leg": "index", "delim": delim, "ins": ins, "needle": nd})
+        if any(len(v) > 1 for v in exp.values()):
+            nd = sorted(exp, key=lambda k: -len(exp[k]))[0]
+            sample(f"index {name}", 2, delim=delim, inserts=[delim.join(p) for p in ins], needle=nd,
+                   expected_from_tlc=exp[nd], real_index=got.get(nd, []))
         stats["index_nonempty"] += len(exp)
         stats["index_multi"] += sum(1 for v in exp.values() if len(v) > 1)
     stats["index_disagreements"] += bad
@@ -97,11 +107,15 @@ def index_leg(rep, tier, exe, stats, tlc_stats):
     cfgs = INDEX_CFGS[tier]
     # quick: the three small configurations side by side (4+2+2 workers); thorough: the big one alone first
     groups = [cfgs] if tier == "quick" else [cfgs[:1], cfgs[1:]]
+    # development on a shared machine: VERIF_TLC_WORKERS caps the workers and serialises the runs
+    cap = int(os.environ.get("VERIF_TLC_WORKERS", "8"))
+    if cap < 8:
+        groups = [[c] for c in cfgs]
     results = {}
     for g in groups:
         with ThreadPoolExecutor(len(g)) as ex:
-            futs = {c[0]: ex.submit(vlib.tlc, "PathIndex", c[0], workers=c[3], coverage=(tier == "thorough"),
-                                    timeout=c[2], heap="4g") for c in g}
+            futs = {c[0]: ex.submit(vlib.tlc, "PathIndex", c[0], workers=min(c[3], cap), coverage=(tier == "thorough"),
+                                    timeout=c[2] * (3 if cap < 8 else 1), heap="3g" if cap < 8 else "4g") for c in g}
             for k, f in futs.items():
                 results[k] = f.result()
     for cfg, delim, tmo, _w in cfgs:
@@ -156,7 +170,7 @@ def gt_tlc(fns, files, syms, fn_needles, file_needles, pats, tlc_stats, fn_delim
     if not (d / "ok").exists():
         d.mkdir(parents=True, exist_ok=True)
         os.replace(mod, d / "C17Data.tla")
-        r = vlib.tlc("PathGT", "PathGT.cfg", workers=1, timeout=1500, heap="6g",
+        r = vlib.tlc("PathGT", "PathGT.cfg", workers=1, timeout=1500, heap="3g",
                      jvm=[f"-DTLA-Library={d}"], env={"OUT": str(out)}, name=f"PathGT-{h}")
         vlib.tlc_expect_ok(r, "PathGT")
         if r.violated:
@@ -279,6 +293,9 @@ def compare_fn(rep, e, needle, phase, row, must, may, stats):
     if row.get("left"):
         stats["leftover_breakpoints"] += 1
     stats["fn_queries"] += 1
+    if len(must) > 1 or (not must and selected == set() and "::" in needle):
+        sample("fn " + ("hit" if must else "near-miss"), 3, needle=needle, phase=phase, must_from_tlc=[e.fpath(i) for i in must[:6]],
+               n_must=len(must), n_may=len(may), selected=[e.fpath(i) for i in sorted(selected)[:6]], n_selected=len(selected))
     stats["fn_selected"] += len(selected)
     if must:
         stats["fn_nonempty"] += 1
@@ -320,6 +337,9 @@ def compare_line(rep, e, needle, phase, row, must, may, stats):
                      expected=f"only files among the {len(may)} the needle may denote",
                      actual=[e.files[i]["path"] for i in extra[:8]], program=PROGRAM, script=script)
     stats["line_queries"] += 1
+    if len(need) > 1:
+        sample("line", 2, needle=needle, line=3, phase=phase, must_from_tlc=[e.files[i]["path"] for i in need[:6]],
+               selected=[e.files[i]["path"] for i in sorted(selected)[:6]])
     if need:
         stats["line_nonempty"] += 1
     if len(need) > 1:
@@ -373,6 +393,9 @@ def compare_sym(rep, e, pat, phase, row, must, may, stats):
         rep.mismatch("symbol_foreign", act, needle=rx, phase=phase, expected="only symbols whose name matches",
                      actual=[e.syms[i]["forms"][-1] for i in extra[:8]], program=PROGRAM, script=script)
     stats["sym_queries"] += 1
+    if must:
+        sample("sym", 2, regex=rx, must_from_tlc=[e.syms[i]["forms"][-1] for i in must[:4]], n_must=len(must),
+               n_may=len(may), listed=[x["name"] for x in row["syms"][:4]], n_listed=len(row["syms"]))
     if must:
         stats["sym_nonempty"] += 1
 
@@ -456,13 +479,11 @@ def run(rep, tier, replay):
             raise vlib.ToolError("this record is a model-level result; re-run the tier instead")
         n = stats["index_cases"] + stats["e2e_queries"]
         return rep.finish("model_checking", {"states": tlc_stats["states"], "transitions": tlc_stats["transitions"],
-                                             "traces_validated_against_impl": n, "samples": [sc], "replay": True,
+                                             "traces_validated_against_impl": n, "samples": SAMPLES + [sc], "replay": True,
                                              "tlc_runs": tlc_stats["runs"]})
     index_leg(rep, tier, exe, stats, tlc_stats)
     e2e_leg(rep, tier, exe, stats, tlc_stats)
-    samples = [{"leg": "index", "what": "TLC CASE lines replayed into PathSearchIndex", "cases": stats["index_cases"],
-                "gets": stats["index_gets"]},
-               {"leg": "e2e", "what": "needles asked of the real Debugger (static + running)", "queries": stats["e2e_queries"]}]
+    samples = SAMPLES or [{"kind": "none"}]
     cov = {"states": tlc_stats["states"], "transitions": tlc_stats["transitions"],
            "traces_validated_against_impl": stats["index_cases"] + stats["e2e_queries"],
            "samples": samples, "tlc_runs": tlc_stats["runs"], "gt_answers_from_tlc": tlc_stats["gt_answers"],
